@@ -1,5 +1,29 @@
+/-
+  C12 -- reading a commented document with comments switched OFF, and "in either mode the non-comment data is identical".
+
+    1  `srcToksPEs_plain`, `srcPWF_plain`, `denPEs_plain`, `parseRest_plain`
+           a comment-free document is a labelled document without comment entries: the rest of the reader
+           (`C12rest.parseRest_labelled_clean`) on a plain document, from any lexer state
+       `C12_read_commented_off`   the companion of `C12read.C12_read_commented` (same hypotheses): with comments off the
+           reader returns `denCoff c items`; the counter is the one of the comments-on read
+       `C12_layout_tolerant_commented_off`
+    2  `phKey`, `stripPhV` / `stripPhEs` / `stripPhXs`   drop every entry whose key is a placeholder word (`isPhTok`), at
+           every dict level, also of dicts inside lists (the documents of the model have comment-free lists, so on
+           their meanings the recursion through lists is the identity: `strip_denSrcXs`)
+       `strip_setKey`, `strip_setKey_ph`, `strip_delKey_ph`, `strip_cleanLevel`, `strip_cleanRec`, `strip_clean`
+           `_clean` only deletes placeholder entries (keys unique at every level: `denP_nodup`)
+       `strip_denSrcEs`, `strip_denI`, `denCoff_data`
+       `C12_data_on_off`          `stripPhEs (denC c items).data = (denCoff c items).data` (needs only `CSrcWFItems`)
+    3  `read_commented_data`, `C02_comments_transparent`, `C02_comments_transparent_ok`
+           commented document, any commented layout, comments on or off, any valid counter  vs.
+           comment-free document, any layout, comments on or off, any directory, any valid counter: same data
+    4  `exDoc_read_off`, `exDoc_data_on_off`, `exDoc_off_data`, `exDoc_transparent`, `exDoc_on_keys`, `exDoc_strip_proper`
+
+  Hypotheses beyond those of `C12_read_commented`: none.  Nothing was found false.
+-/
 import DictIO.Props.C12read
 import DictIO.Props.C02main
+import DictIO.Props.C06
 
 namespace DictIO.C12
 open DictIO
@@ -98,5 +122,395 @@ theorem C12_read_commented_off {items : List CItem} {gaps : List Str} {tail : St
   rw [parseNative_stages, hst]
   rw [parseRest_plain (plain_wf hwf) hgs ht rfl rfl (counter_labelI items { counter := c } hc) hn hd]
   rfl
+
+/-! ## 2. the data with the comment entries stripped -/
+
+/-- a key that is a comment / include placeholder word -/
+def phKey : Key → Bool
+  | .str k => isPhTok k
+  | .int _ => false
+
+mutual
+  /-- drop every entry whose key is a placeholder word, at every dict level (also of dicts inside lists) -/
+  def stripPhV : Val → Val
+    | .leaf x => .leaf x
+    | .dict es => .dict (stripPhEs es)
+    | .list xs => .list (stripPhXs xs)
+  def stripPhEs : Entries → Entries
+    | [] => []
+    | (k, v) :: es => if phKey k then stripPhEs es else (k, stripPhV v) :: stripPhEs es
+  def stripPhXs : List Val → List Val
+    | [] => []
+    | v :: xs => stripPhV v :: stripPhXs xs
+end
+
+theorem stripPhEs_cons_ph {k : Key} (h : phKey k = true) (v : Val) (es : Entries) :
+    stripPhEs ((k, v) :: es) = stripPhEs es := by
+  simp only [stripPhEs, h, if_true]
+
+theorem stripPhEs_cons {k : Key} (h : phKey k = false) (v : Val) (es : Entries) :
+    stripPhEs ((k, v) :: es) = (k, stripPhV v) :: stripPhEs es := by
+  simp only [stripPhEs, h, Bool.false_eq_true, if_false]
+
+theorem stripPhEs_nil : stripPhEs [] = [] := by simp only [stripPhEs]
+
+/-- `d[k] = v` for an ordinary key commutes with stripping -/
+theorem strip_setKey {k : Key} (hk : phKey k = false) (v : Val) : ∀ acc : Entries,
+    stripPhEs (setKey k v acc) = setKey k (stripPhV v) (stripPhEs acc)
+  | [] => by simp only [setKey, stripPhEs_cons hk, stripPhEs_nil]
+  | (k', v') :: es => by
+    by_cases h : k' = k
+    · subst h
+      simp only [setKey, if_true, stripPhEs_cons hk]
+    · cases hp : phKey k' with
+      | true => simp only [setKey, h, if_false, stripPhEs_cons_ph hp, strip_setKey hk v es]
+      | false => simp only [setKey, h, if_false, stripPhEs_cons hp, strip_setKey hk v es]
+
+/-- `d[ph] = v` for a placeholder key is invisible after stripping -/
+theorem strip_setKey_ph {k : Key} (hk : phKey k = true) (v : Val) : ∀ acc : Entries,
+    stripPhEs (setKey k v acc) = stripPhEs acc
+  | [] => by simp only [setKey, stripPhEs_cons_ph hk, stripPhEs_nil]
+  | (k', v') :: es => by
+    by_cases h : k' = k
+    · subst h
+      simp only [setKey, if_true, stripPhEs_cons_ph hk]
+    · cases hp : phKey k' with
+      | true => simp only [setKey, h, if_false, stripPhEs_cons_ph hp, strip_setKey_ph hk v es]
+      | false => simp only [setKey, h, if_false, stripPhEs_cons hp, strip_setKey_ph hk v es]
+
+/-- `del d[ph]` for a placeholder key is invisible after stripping -/
+theorem strip_delKey_ph {k : Key} (hk : phKey k = true) : ∀ acc : Entries,
+    stripPhEs (delKey k acc) = stripPhEs acc
+  | [] => by simp only [delKey]
+  | (k', v') :: es => by
+    by_cases h : k' = k
+    · subst h
+      simp only [delKey, if_true, stripPhEs_cons_ph hk]
+    · cases hp : phKey k' with
+      | true => simp only [delKey, h, if_false, stripPhEs_cons_ph hp, strip_delKey_ph hk es]
+      | false => simp only [delKey, h, if_false, stripPhEs_cons hp, strip_delKey_ph hk es]
+
+theorem strip_mem {k : Key} {v : Val} (hk : phKey k = false) : ∀ {es : Entries}, (k, v) ∈ es →
+    (k, stripPhV v) ∈ stripPhEs es
+  | [], h => by cases h
+  | (k', v') :: es, h => by
+    rcases List.mem_cons.mp h with e | h
+    · cases e
+      rw [stripPhEs_cons hk]; exact List.mem_cons_self
+    · cases hp : phKey k' with
+      | true => rw [stripPhEs_cons_ph hp]; exact strip_mem hk h
+      | false => rw [stripPhEs_cons hp]; exact List.mem_cons_of_mem _ (strip_mem hk h)
+
+theorem strip_keys_sublist : ∀ es : Entries, (keys (stripPhEs es)).Sublist (keys es)
+  | [] => by simp only [stripPhEs_nil]; exact List.Sublist.refl _
+  | (k', v') :: es => by
+    cases hp : phKey k' with
+    | true => rw [stripPhEs_cons_ph hp]; exact (strip_keys_sublist es).cons _
+    | false => rw [stripPhEs_cons hp]; exact (strip_keys_sublist es).cons_cons _
+
+/-- a placeholder key in the sense of `_clean` (`…COMMENT\d{6}`, `INCLUDE\d{6}`) is a placeholder word -/
+theorem phKey_of_isPhKey {k : Key} (h : C07.isPhKey k = true) : phKey k = true := by
+  cases k with
+  | int z => cases h
+  | str s =>
+    simp only [C07.isPhKey, Bool.or_eq_true] at h
+    simp only [phKey, isPhTok, isCommentTok, isIncludeTok, Bool.or_eq_true]
+    rcases h with (h | h) | h
+    · exact Or.inl (C02.Front.isInfix_trans (p := "COMMENT".toList) (by decide) (C02.Main.containsPh_infix h))
+    · exact Or.inr (C02.Main.containsPh_infix h)
+    · exact Or.inl (C02.Front.isInfix_trans (p := "COMMENT".toList) (by decide) (C02.Main.containsPh_infix h))
+
+/-! ### `_clean` only deletes placeholder entries: invisible after stripping (keys unique at every level) -/
+
+theorem strip_cleanLevel (s : SD) (lvl : Entries) : stripPhEs (cleanLevel s lvl).2 = stripPhEs lvl :=
+  C06.cleanLevel_inv (fun d => stripPhEs d = stripPhEs lvl)
+    (fun k d hk hd => (strip_delKey_ph (phKey_of_isPhKey hk) d).trans hd) s lvl rfl
+
+theorem strip_cleanRec : ∀ (fuel : Nat) (s : SD) (lvl : Entries), NodupKeysV (.dict lvl) →
+    stripPhEs (cleanRec fuel s lvl).2 = stripPhEs lvl
+  | 0, _, _, _ => rfl
+  | fuel + 1, s, lvl, hn => by
+    have hsub := (C06.cleanLevel_spec s lvl).1
+    have hn1 : (keys (cleanLevel s lvl).2).Nodup := (hsub.map (·.1)).nodup hn.1
+    have hmem : ∀ e ∈ (cleanLevel s lvl).2, NodupKeysV e.2 := fun e he =>
+      C07.nodupKeysEs_iff.mp hn.2 e (hsub.subset he)
+    have hl := strip_cleanLevel s lvl
+    simp only [cleanRec]
+    generalize (cleanLevel s lvl).2 = lvl1 at hn1 hmem hl
+    generalize (cleanLevel s lvl).1 = s1
+    rw [← hl]
+    have hns : (keys (stripPhEs lvl1)).Nodup := (strip_keys_sublist lvl1).nodup hn1
+    suffices H : ∀ (l : Entries) (acc : SD × Entries), (∀ e ∈ l, e ∈ lvl1) → stripPhEs acc.2 = stripPhEs lvl1 →
+        stripPhEs (l.foldl (fun (acc : SD × Entries) e =>
+          match e.2 with
+          | .dict sub => ((cleanRec fuel acc.1 sub).1, setKey e.1 (.dict (cleanRec fuel acc.1 sub).2) acc.2)
+          | _ => acc) acc).2 = stripPhEs lvl1 from H lvl1 (s1, lvl1) (fun _ h => h) rfl
+    intro l
+    induction l with
+    | nil => intro acc _ h; exact h
+    | cons e l ih =>
+      intro acc hsub' hacc
+      rw [List.foldl_cons]
+      apply ih _ (fun e' he' => hsub' e' (List.mem_cons_of_mem _ he'))
+      obtain ⟨k0, v0⟩ := e
+      have hm : (k0, v0) ∈ lvl1 := hsub' _ List.mem_cons_self
+      cases v0 with
+      | leaf x => exact hacc
+      | list xs => exact hacc
+      | dict sub =>
+        dsimp only
+        have ihs := strip_cleanRec fuel acc.1 sub (hmem _ hm)
+        cases hp : phKey k0 with
+        | true => rw [strip_setKey_ph hp]; exact hacc
+        | false =>
+          rw [strip_setKey hp, hacc]
+          have : (k0, stripPhV (.dict sub)) ∈ stripPhEs lvl1 := strip_mem hp hm
+          simp only [stripPhV] at this ⊢
+          rw [ihs]
+          exact C07.setKey_of_mem_nodup hns this
+
+theorem strip_clean (s : SD) (hn : NodupKeysV (.dict s.data)) : stripPhEs s.clean.data = stripPhEs s.data := by
+  have h : s.clean.data = (cleanRec (depthV (.dict s.data) + 1) s s.data).2 := rfl
+  rw [h]
+  exact strip_cleanRec _ s s.data hn
+
+/-! ### the meaning of a labelled document has unique keys at every level -/
+
+theorem denP_nodup : ∀ (es : SrcEntries) (acc : Entries), NodupKeysV (.dict acc) → NodupKeysV (.dict (denPEs es acc))
+  | [], _, hacc => by simpa only [denPEs] using hacc
+  | (k, .lit l) :: es, acc, hacc => by
+    simp only [denPEs]
+    split
+    · exact denP_nodup es _ (C07.nodupV_setKey hacc (by simp only [NodupKeysV]))
+    · split
+      · exact denP_nodup es _ (C07.nodupV_setKey hacc (by simp only [denPV, NodupKeysV]))
+      · exact denP_nodup es _ hacc
+  | (k, .dict dd) :: es, acc, hacc => by
+    simp only [denPEs]
+    split
+    · exact denP_nodup es _ (C07.nodupV_setKey hacc (by simp only [NodupKeysV]))
+    · split
+      · exact denP_nodup es _ (C07.nodupV_setKey hacc (by simp only [denPV]; exact denP_nodup dd [] C07.nodupV_nil))
+      · exact denP_nodup es _ hacc
+  | (k, .list xs) :: es, acc, hacc => by
+    simp only [denPEs]
+    split
+    · exact denP_nodup es _ (C07.nodupV_setKey hacc (by simp only [NodupKeysV]))
+    · split
+      · exact denP_nodup es _ (C07.nodupV_setKey hacc (by simp only [denPV, NodupKeysV]; exact C02.Main.den_nodupXs xs))
+      · exact denP_nodup es _ hacc
+
+/-! ### stripping the meaning of a document -/
+
+/-- a key typed from a bare source word is no placeholder word -/
+theorem typedKey_not_phKey {k : Str} {key : Key} (hk : isSrcWord k = true) (h : keyOfScalar (parseKey k) = some key) :
+    phKey key = false := by
+  rcases C02.Main.typedKey_cases hk h with ⟨z, rfl⟩ | rfl
+  · rfl
+  · exact (C02.srcWord_facts hk).2.1
+
+mutual
+  /-- the meaning of a comment-free document has no placeholder entry, at any level, also inside lists -/
+  theorem strip_denSrcV : ∀ (v : Src) (d : Nat), SrcWFV d v = true → stripPhV (denSrcV v) = denSrcV v
+    | .lit l, _, _ => by simp only [denSrcV, stripPhV]
+    | .dict es, d, h => by
+      simp only [SrcWFV] at h
+      simp only [denSrcV, stripPhV, strip_denSrcEs es (d + 1) [] h, stripPhEs_nil]
+    | .list xs, d, h => by
+      simp only [SrcWFV] at h
+      simp only [denSrcV, stripPhV, strip_denSrcXs xs (d + 1) h]
+  theorem strip_denSrcEs : ∀ (es : SrcEntries) (d : Nat) (acc : Entries), SrcWFEs d es = true →
+      stripPhEs (denSrcEs es acc) = denSrcEs es (stripPhEs acc)
+    | [], _, _, _ => by simp only [denSrcEs]
+    | (k, v) :: es, d, acc, h => by
+      obtain ⟨hk, hp, hkey, hv, hes⟩ := wf_cons h
+      obtain ⟨key, hkey⟩ := Option.isSome_iff_exists.mp hkey
+      simp only [denSrcEs, hkey]
+      rw [strip_denSrcEs es d _ hes, strip_setKey (typedKey_not_phKey hk hkey), strip_denSrcV v d hv]
+  theorem strip_denSrcXs : ∀ (xs : List Src) (d : Nat), SrcWFXs d xs = true → stripPhXs (denSrcXs xs) = denSrcXs xs
+    | [], _, _ => by simp only [denSrcXs, stripPhXs]
+    | v :: xs, d, h => by
+      simp only [SrcWFXs, Bool.and_eq_true] at h
+      simp only [denSrcXs, stripPhXs, strip_denSrcV v d h.1, strip_denSrcXs xs d h.2]
+end
+
+mutual
+  theorem strip_denV : ∀ (v : CSrc) (d : Nat) (st : CLabelSt), CSrcWFV d v = true →
+      stripPhV (denPV (labelCV st v).2) = denSrcV (plainV v)
+    | .lit l, _, _, _ => by simp only [labelCV, denPV, stripPhV, plainV, denSrcV]
+    | .dict items, d, st, h => by
+      simp only [CSrcWFV] at h
+      simp only [labelCV, denPV, stripPhV, plainV, denSrcV, strip_denI items (d + 1) st [] h, stripPhEs_nil]
+    | .list xs, d, st, h => by
+      simp only [CSrcWFV] at h
+      simp only [labelCV, denPV, stripPhV, plainV, denSrcV, strip_denSrcXs xs (d + 1) h]
+  /-- stripping the meaning of the labelled document gives the meaning of the comment-free document -/
+  theorem strip_denI : ∀ (items : List CItem) (d : Nat) (st : CLabelSt) (acc : Entries), CSrcWFItems d items = true →
+      stripPhEs (denPEs (labelCItems st items).2 acc) = denSrcEs (plainItems items) (stripPhEs acc)
+    | [], _, _, _, _ => by simp only [labelCItems, denPEs, plainItems, denSrcEs]
+    | .entry k v :: r, d, st, acc, h => by
+      simp only [CSrcWFItems, Bool.and_eq_true] at h
+      obtain ⟨⟨⟨hk, hkey⟩, hv⟩, hr⟩ := h
+      obtain ⟨key, hkey⟩ := Option.isSome_iff_exists.mp hkey
+      have hp : isPhTok k = false := (C02.srcWord_facts hk).2.1
+      simp only [labelCItems, plainItems]
+      rw [denPEs_cons hp hkey, strip_denI r d _ _ hr, strip_setKey (typedKey_not_phKey hk hkey), strip_denV v d st hv]
+      simp only [denSrcEs, hkey]
+    | .lineC x :: r, d, st, acc, h => by
+      simp only [CSrcWFItems, Bool.and_eq_true] at h
+      simp only [labelCItems, plainItems]
+      have hp : ∀ i, isPhTok (linePh i) = true := fun i => (linePh_tok i).2
+      rw [denPEs_cons_ph (hp _), strip_denI r d _ _ h.2, strip_setKey_ph (k := .str _) (hp _)]
+    | .blockC x :: r, d, st, acc, h => by
+      simp only [CSrcWFItems, Bool.and_eq_true] at h
+      simp only [labelCItems, plainItems]
+      have hp : ∀ i, isPhTok (blockPh i) = true := fun i => (blockPh_tok i).2
+      rw [denPEs_cons_ph (hp _), strip_denI r d _ _ h.2, strip_setKey_ph (k := .str _) (hp _)]
+end
+
+/-- with comments off the data is the meaning of the comment-free document (`_clean` finds nothing to delete) -/
+theorem denCoff_data {d : Nat} {items : List CItem} (c : Counter) (hwf : CSrcWFItems d items = true) :
+    (denCoff c items).data = denSrcEs (plainItems items) [] := by
+  have h : denCoff c items =
+      ({ data := denSrcEs (plainItems items) [],
+         lineC := (labelCItems { counter := c } items).1.lineC,
+         blockC := (labelCItems { counter := c } items).1.blockC } : SD).clean := rfl
+  rw [h, C07.clean_id _ (C02.den_nodup _) (C02.den_noPh (plain_wf hwf))]
+
+/-- **in either mode the non-comment data is identical**: the data read with comments on, with the comment entries
+    stripped at every dict level, is the data read with comments off -/
+theorem C12_data_on_off {d : Nat} {items : List CItem} (c : Counter) (hwf : CSrcWFItems d items = true) :
+    stripPhEs (denC c items).data = (denCoff c items).data := by
+  have h : denC c items =
+      ({ data := denPEs (labelCItems { counter := c } items).2 [],
+         lineC := (labelCItems { counter := c } items).1.lineC,
+         blockC := (labelCItems { counter := c } items).1.blockC } : SD).clean := rfl
+  rw [h, strip_clean _ (denP_nodup _ [] C07.nodupV_nil), denCoff_data c hwf]
+  exact (strip_denI items d _ [] hwf).trans (by rw [stripPhEs_nil])
+
+/-- layout tolerance with comments switched off: two admissible layouts of the same commented document read alike -/
+theorem C12_layout_tolerant_commented_off {items : List CItem} {g₁ g₂ : List Str} {t₁ t₂ : Str} (dir : Str) (c : Counter)
+    (hwf : CSrcWFItems 1 items = true)
+    (h₁ : GapsOKC (ctoksItems items) g₁ t₁ = true) (h₂ : GapsOKC (ctoksItems items) g₂ t₂ = true)
+    (ht₁ : items = [] → t₁.all isWs = true) (ht₂ : items = [] → t₂.all isWs = true)
+    (hc : C13.ValidCounter Gen.counterLimit c)
+    (hn : C02.countQuotedEs (plainItems items) ≤ Gen.counterLimit + 1)
+    (hd : C02.DocKeysAbsent (plainItems items)) :
+    parseNative false dir c (spreadC (ctoksItems items) g₁ t₁) = parseNative false dir c (spreadC (ctoksItems items) g₂ t₂) := by
+  rw [C12_read_commented_off dir c hwf h₁ ht₁ hc hn hd, C12_read_commented_off dir c hwf h₂ ht₂ hc hn hd]
+
+/-! ## 3. comments are transparent for the data -/
+
+/-- the data a commented document is read to, in either mode, with the comment entries stripped: the meaning of the
+    comment-free document -/
+theorem read_commented_data {items : List CItem} {gaps : List Str} {tail : Str} (cm : Bool) (dir : Str) (c : Counter)
+    (hwf : CSrcWFItems 1 items = true) (hg : GapsOKC (ctoksItems items) gaps tail = true)
+    (htail : items = [] → tail.all isWs = true)
+    (hc : C13.ValidCounter Gen.counterLimit c)
+    (hn : C02.countQuotedEs (plainItems items) ≤ Gen.counterLimit + 1)
+    (hd : C02.DocKeysAbsent (plainItems items)) :
+    (parseNative cm dir c (spreadC (ctoksItems items) gaps tail)).map (fun r => stripPhEs r.1.data) =
+      .ok (denSrcEs (plainItems items) []) := by
+  cases cm with
+  | true =>
+    rw [C12_read_commented dir c hwf hg htail hc hn hd]
+    simp only [Except.map]
+    rw [C12_data_on_off c hwf, denCoff_data c hwf]
+  | false =>
+    rw [C12_read_commented_off dir c hwf hg htail hc hn hd]
+    simp only [Except.map]
+    rw [denCoff_data c hwf]
+    exact congrArg _ ((strip_denSrcEs _ 1 [] (plain_wf hwf)).trans (by rw [stripPhEs_nil]))
+
+/-- **comments are transparent.**  A well-formed commented document in ANY admissible commented layout, read with
+    comments on or off from any valid counter, and the same document without its comments in ANY admissible layout,
+    read (with comments on or off, from any directory) from ANY valid counter, give the same data, once the comment
+    entries `…COMMENTnnnnnn ↦ …COMMENTnnnnnn` are stripped from the former at every dict level.  Both reads succeed. -/
+theorem C02_comments_transparent {items : List CItem} {gaps : List Str} {tail : Str} {gaps₂ : List Str} {tail₂ : Str}
+    (cm cm₂ : Bool) (dir dir₂ : Str) (c c₂ : Counter)
+    (hwf : CSrcWFItems 1 items = true) (hg : GapsOKC (ctoksItems items) gaps tail = true)
+    (htail : items = [] → tail.all isWs = true)
+    (hc : C13.ValidCounter Gen.counterLimit c)
+    (hn : C02.countQuotedEs (plainItems items) ≤ Gen.counterLimit + 1)
+    (hd : C02.DocKeysAbsent (plainItems items))
+    (hg₂ : GapsOKS (srcToksEs (plainItems items)) gaps₂ = true) (ht₂ : tail₂.all isWs = true)
+    (hc₂ : C13.ValidCounter Gen.counterLimit c₂) :
+    (parseNative cm dir c (spreadC (ctoksItems items) gaps tail)).map (fun r => stripPhEs r.1.data) =
+      (parseNative cm₂ dir₂ c₂ (spreadS (srcToksEs (plainItems items)) gaps₂ tail₂)).map (fun r => r.1.data) := by
+  rw [read_commented_data cm dir c hwf hg htail hc hn hd,
+    C02.C02_layout_tolerant_counter cm₂ dir₂ (plain_wf hwf) hg₂ ht₂ hc₂ hn hd]
+  rfl
+
+/-- the same as "both reads succeed and the data agree" -/
+theorem C02_comments_transparent_ok {items : List CItem} {gaps : List Str} {tail : Str} {gaps₂ : List Str} {tail₂ : Str}
+    (cm cm₂ : Bool) (dir dir₂ : Str) (c c₂ : Counter)
+    (hwf : CSrcWFItems 1 items = true) (hg : GapsOKC (ctoksItems items) gaps tail = true)
+    (htail : items = [] → tail.all isWs = true)
+    (hc : C13.ValidCounter Gen.counterLimit c)
+    (hn : C02.countQuotedEs (plainItems items) ≤ Gen.counterLimit + 1)
+    (hd : C02.DocKeysAbsent (plainItems items))
+    (hg₂ : GapsOKS (srcToksEs (plainItems items)) gaps₂ = true) (ht₂ : tail₂.all isWs = true)
+    (hc₂ : C13.ValidCounter Gen.counterLimit c₂) :
+    ∃ sd c' sd₂ c₂', parseNative cm dir c (spreadC (ctoksItems items) gaps tail) = .ok (sd, c') ∧
+      parseNative cm₂ dir₂ c₂ (spreadS (srcToksEs (plainItems items)) gaps₂ tail₂) = .ok (sd₂, c₂') ∧
+      stripPhEs sd.data = sd₂.data := by
+  have h₂ := C02.C02_layout_tolerant_counter cm₂ dir₂ (plain_wf hwf) hg₂ ht₂ hc₂ hn hd
+  cases cm with
+  | true =>
+    exact ⟨_, _, _, _, C12_read_commented dir c hwf hg htail hc hn hd, h₂,
+      (C12_data_on_off c hwf).trans (denCoff_data c hwf)⟩
+  | false =>
+    refine ⟨_, _, _, _, C12_read_commented_off dir c hwf hg htail hc hn hd, h₂, ?_⟩
+    rw [denCoff_data c hwf]
+    exact (strip_denSrcEs _ 1 [] (plain_wf hwf)).trans (by rw [stripPhEs_nil])
+
+/-! ## 4. non-vacuity: the example document of `C12stages` (five line comments, two block comments, a nested dict, a
+    quoted string, a list; two comment texts occur twice at their level) -/
+
+theorem exDoc_read_off (dir : Str) :
+    parseNative false dir none (spreadC (ctoksItems exDoc) exGaps ['\n']) =
+      .ok (denCoff none exDoc,
+           C02.adv Gen.counterLimit (C02.countQuotedEs (plainItems exDoc)) (labelCItems { counter := none } exDoc).1.counter) :=
+  C12_read_commented_off dir none exDoc_wf exGaps_ok (fun h => by cases h) (Or.inl rfl) (by decide +kernel) (by decide +kernel)
+
+theorem exDoc_data_on_off : stripPhEs (denC none exDoc).data = (denCoff none exDoc).data :=
+  C12_data_on_off none exDoc_wf
+
+/-- the data of the example with comments off, evaluated -/
+theorem exDoc_off_data : (denCoff none exDoc).data =
+    [ (.str ['a'], .leaf (.int 1)),
+      (.str ['n'], .dict [(.str ['p'], .leaf (.str "x y".toList))]),
+      (.str ['l'], .list [.leaf (.int 1), .leaf (.str "it's".toList)]) ] := by
+  rw [denCoff_data none exDoc_wf]
+  decide +kernel
+
+/-- the comment-free example in a layout of its own: `a 1;n{p 'x y';}` … with a tab, a CR LF and no final white space -/
+def exPlainGaps : List Str :=
+  [[], ['\t'], [], [], [], [], ['\r', '\n'], [], [], [' ', ' '], [' '], [], [' '], [], []]
+
+theorem exPlainGaps_ok : GapsOKS (srcToksEs (plainItems exDoc)) exPlainGaps = true := by decide +kernel
+
+theorem exDoc_transparent (cm cm₂ : Bool) (dir dir₂ : Str) :
+    (parseNative cm dir none (spreadC (ctoksItems exDoc) exGaps ['\n'])).map (fun r => stripPhEs r.1.data) =
+      (parseNative cm₂ dir₂ (some 7) (spreadS (srcToksEs (plainItems exDoc)) exPlainGaps [])).map (fun r => r.1.data) :=
+  C02_comments_transparent cm cm₂ dir dir₂ none (some 7) exDoc_wf exGaps_ok (fun h => by cases h) (Or.inl rfl)
+    (by decide +kernel) (by decide +kernel) exPlainGaps_ok rfl (Or.inr ⟨7, rfl, by decide⟩)
+
+theorem exPlain_text : spreadS (srcToksEs (plainItems exDoc)) exPlainGaps [] =
+    "a\t1;n{p\r\n'x y';}  l (1 \"it's\");".toList := by decide +kernel
+
+/-- stripping is not the identity on the example: with comments on, the top level holds three comment entries (the
+    fifth line comment repeats the text of the first and is deleted by `_clean`) -/
+theorem exDoc_on_keys : keys (denC none exDoc).data =
+    [.str "LINECOMMENT000000".toList, .str "BLOCKCOMMENT000000".toList, .str ['a'], .str "LINECOMMENT000001".toList,
+     .str ['n'], .str ['l']] := by decide +kernel
+
+theorem exDoc_strip_proper : stripPhEs (denC none exDoc).data ≠ (denC none exDoc).data := by
+  rw [exDoc_data_on_off, exDoc_off_data]
+  intro h
+  have := congrArg keys h
+  rw [exDoc_on_keys] at this
+  revert this
+  decide
 
 end DictIO.C12
